@@ -6,7 +6,11 @@ package network
 
 import (
 	"bytes"
+	"encoding/hex"
 	"fmt"
+	"os"
+	"runtime"
+	"runtime/pprof"
 	"strings"
 	"testing"
 	"time"
@@ -52,7 +56,7 @@ var c33Lens = []int{0, 0, 1, 1, 2, 3, 4, 5, 8, 31, 32, 33, 63, 64, 65, 100, 300}
 
 func c33Bytes(t *rapid.T, label string) []byte {
 	n := rapid.SampledFrom(c33Lens).Draw(t, label+"-len")
-	if rapid.IntRange(0, 59).Draw(t, label+"-big") == 0 {
+	if rapid.IntRange(0, 149).Draw(t, label+"-big") == 0 {
 		n = rapid.SampledFrom([]int{16383, 16384, 20000}).Draw(t, label+"-biglen")
 	}
 	seed := rapid.Byte().Draw(t, label+"-seed")
@@ -100,7 +104,15 @@ func c33Digest(t *rapid.T) types.Digest {
 		copy(id[:], rapid.SampledFrom([]string{"BABE", "FRNK", "BEEF", "\x00\x00\x00\x00"}).Draw(t, "engine"))
 		data := c33Short(t, fmt.Sprintf("digest-%d", i))
 		var err error
-		switch rapid.IntRange(0, 3).Draw(t, "digest-kind") {
+		switch rapid.IntRange(0, 4).Draw(t, "digest-kind") {
+		case 4:
+			// "Other" item (enum index 0, opaque bytes). It was added to dot/types by a
+			// later fix commit; it is built through the decoder and skipped on a tree
+			// that does not know it, so the check compiles against both.
+			var item types.DigestItem
+			if scale.Unmarshal(append(append([]byte{0}, c33h.SpecCompact(uint64(len(data)))...), data...), &item) == nil {
+				d = append(d, item)
+			}
 		case 0:
 			err = d.Add(types.PreRuntimeDigest{ConsensusEngineID: id, Data: data})
 		case 1:
@@ -142,7 +154,8 @@ var (
 	shHash       = c33h.Arr(32)
 	shDigestItem = func() *c33h.Shape {
 		item := c33h.Struct(c33h.Arr(4), c33h.Bytes())
-		return c33h.Enum(map[byte]*c33h.Shape{4: item, 5: item, 6: item, 8: c33h.Struct()})
+		// 0 = "Other": a named byte-slice type, decoded element by element (no decodeBytes)
+		return c33h.Enum(map[byte]*c33h.Shape{0: c33h.Vec(c33h.Arr(1)), 4: item, 5: item, 6: item, 8: c33h.Struct()})
 	}()
 	shHeader        = c33h.Struct(shHash, c33h.Compact(), shHash, shHash, c33h.Vec(shDigestItem))
 	shBlockAnnounce = c33h.Struct(shHash, c33h.Compact(), shHash, shHash, c33h.Vec(shDigestItem), c33h.Bool())
@@ -474,6 +487,7 @@ func c33Run(t *testing.T, name string) {
 	defer kit.Flush()
 	kit.Note("rule", c33Rule)
 	d := c33Decoder(name)
+	defer d.ReportRatios()
 	rapid.Check(t, func(t *rapid.T) { c33h.RunCase(t, d) })
 }
 
@@ -702,4 +716,32 @@ func TestC33Regressions(t *testing.T) {
 			kit.Case(fmt.Sprintf("%s regression in=%x", d.Name, in), true, d.Name+"/regression")
 		}
 	}
+}
+
+// TestC33ReplayHex is a manual triage helper (not part of check.json):
+// C33_DECODER=<name> C33_HEX=<input hex> [C33_MEMPROFILE=file] -test.run TestC33ReplayHex
+func TestC33ReplayHex(t *testing.T) {
+	name, hx := os.Getenv("C33_DECODER"), os.Getenv("C33_HEX")
+	if name == "" {
+		t.Skip("C33_DECODER not set")
+	}
+	in, err := hex.DecodeString(hx)
+	if err != nil {
+		t.Fatal(err)
+	}
+	d := c33Decoder(name)
+	if d.Shape != nil {
+		w := c33h.WalkScale(d.Shape, in)
+		t.Logf("walk: err=%v consumed=%d sites=%+v trigger=%v", w.Err, w.Consumed, w.Sites, w.PreallocTrigger())
+	}
+	if p := os.Getenv("C33_MEMPROFILE"); p != "" {
+		runtime.MemProfileRate = 1
+		defer func() {
+			f, _ := os.Create(p)
+			_ = pprof.Lookup("allocs").WriteTo(f, 0)
+			f.Close()
+		}()
+	}
+	r := c33h.Guard(name, in, func() (any, error) { return d.Decode(in) })
+	t.Logf("len=%d alloc=%d mallocs=%d err=%v panic=%v", len(in), r.Alloc, r.Mallocs, r.Err, r.Panic)
 }
